@@ -366,5 +366,29 @@ pub fn run(e: &'static Engine) {
         }));
     }
     e.par(jobs);
+    // (5) arbitrary contents and option combinations (incl. over-capacity inputs, forced modes over narrower classes)
+    let total: u32 = e.tier.pick(16000, 240_000);
+    let shards = e.tier.pick(32u32, 96);
+    let mut jobs: Vec<Job> = Vec::new();
+    for _ in 0..shards {
+        jobs.push(Box::new(move |jc: &mut JobCtx| {
+            let strat = super::c10::case_strategy();
+            jc.run_prop(2 << 20, &strat, total / shards / 2, |(c, _)| c.to_json(), |(c, _), o| {
+                o.label("part:arbitrary_content");
+                check_bc(c, o)
+            });
+            let strat = crate::gens::padded_forced();
+            jc.run_prop(3 << 20, &strat, total / shards / 4, |(c, _, _)| c.to_json(), |(c, _, _), o| {
+                o.label("part:padded_forced_version");
+                check_bc(c, o)
+            });
+            let strat = crate::gens::any_case();
+            jc.run_prop(4 << 20, &strat, total / shards / 4, |(c, _, _)| c.to_json(), |(c, _, _), o| {
+                o.label("part:generated_any");
+                check_bc(c, o)
+            });
+        }));
+    }
+    e.par(jobs);
     e.set_exhaustive(true, "every payload length 0..=7200 x 3 modes x 4 levels with automatic version; every threshold +-1 x the listed forced versions");
 }
